@@ -158,7 +158,7 @@ def check(repo: Repo, run: Run) -> None:
                ev.loc(fnm))
     for fname, engine in (("ident_arg", P1), ("primary", E)):
         s = ast.unparse(engine[fname])
-        run.ob("C03.S1", f"{'Phase1Transpiler' if engine is P1 else 'Evaluator'}.{fname}|has,dyn", "'has'" in s and "'dyn'" in s, "has() and dyn() are special-cased", ev.loc(engine[fname]))
+        run.shape("C03.S1", f"{'Phase1Transpiler' if engine is P1 else 'Evaluator'}.{fname}|has,dyn", "'has'" in s and "'dyn'" in s, "has() and dyn() are special-cased", ev.loc(engine[fname]))
     # S2 -----------------------------------------------------------------
     n = opchain.check_chains(repo, run, "C03.S2", LEVELS)
     run.floor("C03.S2", n, 36)
@@ -191,7 +191,7 @@ def check(repo: Repo, run: Run) -> None:
     # Phase 2 substitutes every deferred template with its own bindings
     p2 = P2.get("expr")
     s = ast.unparse(p2) if p2 else ""
-    run.ob("C03.T1", "Phase2Transpiler.expr", "template.substitute({k: v(tree) for k, v in bindings.items()})" in s, "Phase 2 substitutes each deferred template with exactly its own bindings", ev.loc(p2) if p2 else str(ev.path))
+    run.shape("C03.T1", "Phase2Transpiler.expr", "template.substitute({k: v(tree) for k, v in bindings.items()})" in s, "Phase 2 substitutes each deferred template with exactly its own bindings", ev.loc(p2) if p2 else str(ev.path))
     aliases = [n.targets[0].id for n in ev.cls("Phase2Transpiler").body if isinstance(n, ast.Assign) and isinstance(n.value, ast.Name) and n.value.id == "expr" and isinstance(n.targets[0], ast.Name)]
     deferred = {m for m, ts in tmpls.items() if any(t.deferred for t in ts)}
     run.ob("C03.T1", "Phase2Transpiler|deferred rules", deferred <= set(aliases) | {"expr"}, f"rules with deferred templates {sorted(deferred)} are all collected by Phase 2 ({sorted(set(aliases) | {'expr'})})", str(ev.path))
@@ -243,4 +243,4 @@ def check(repo: Repo, run: Run) -> None:
     # literal(): numeric token text in code position is reported by C07.L4; strings go through repr()
     lit = P1["literal"]
     s = ast.unparse(lit)
-    run.ob("C03.X3", "literal|strings", "celstr(value_token)!r" in s and "celbytes(value_token)!r" in s, "string and bytes literals reach the generated code as repr() of the decoded value", ev.loc(lit))
+    run.shape("C03.X3", "literal|strings", "celstr(value_token)!r" in s and "celbytes(value_token)!r" in s, "string and bytes literals reach the generated code as repr() of the decoded value", ev.loc(lit))
